@@ -2213,8 +2213,7 @@ fn collect_embedded_skin_data<R: Read + Seek>(
 
         // Seek to and read the ModelView structure
         reader.seek(SeekFrom::Start(model_view_offset as u64))?;
-        let mut model_view = vec![0u8; MODEL_VIEW_SIZE];
-        reader.read_exact(&mut model_view)?;
+        let model_view = crate::common::read_exact_vec(reader, MODEL_VIEW_SIZE)?;
 
         // Parse the M2Array offsets from ModelView
         // Layout: indices(8) + triangles(8) + properties(8) + submeshes(8) + batches(8) + bone_count_max(4)
@@ -2274,8 +2273,7 @@ fn collect_embedded_skin_data<R: Read + Seek>(
         // Read indices data (u16 per entry)
         let indices = if n_indices > 0 && ofs_indices > 0 {
             reader.seek(SeekFrom::Start(ofs_indices as u64))?;
-            let mut data = vec![0u8; n_indices as usize * 2];
-            reader.read_exact(&mut data)?;
+            let data = crate::common::read_exact_vec(reader, n_indices as usize * 2)?;
             data
         } else {
             Vec::new()
@@ -2284,8 +2282,7 @@ fn collect_embedded_skin_data<R: Read + Seek>(
         // Read triangles data (u16 per entry)
         let triangles = if n_triangles > 0 && ofs_triangles > 0 {
             reader.seek(SeekFrom::Start(ofs_triangles as u64))?;
-            let mut data = vec![0u8; n_triangles as usize * 2];
-            reader.read_exact(&mut data)?;
+            let data = crate::common::read_exact_vec(reader, n_triangles as usize * 2)?;
             data
         } else {
             Vec::new()
@@ -2295,8 +2292,7 @@ fn collect_embedded_skin_data<R: Read + Seek>(
         let properties = if n_properties > 0 && ofs_properties > 0 {
             reader.seek(SeekFrom::Start(ofs_properties as u64))?;
             // Properties are typically 4 bytes per entry (bone indices + padding)
-            let mut data = vec![0u8; n_properties as usize * 4];
-            reader.read_exact(&mut data)?;
+            let data = crate::common::read_exact_vec(reader, n_properties as usize * 4)?;
             data
         } else {
             Vec::new()
@@ -2305,8 +2301,7 @@ fn collect_embedded_skin_data<R: Read + Seek>(
         // Read submeshes data
         let submeshes = if n_submeshes > 0 && ofs_submeshes > 0 {
             reader.seek(SeekFrom::Start(ofs_submeshes as u64))?;
-            let mut data = vec![0u8; n_submeshes as usize * submesh_size];
-            reader.read_exact(&mut data)?;
+            let data = crate::common::read_exact_vec(reader, n_submeshes as usize * submesh_size)?;
             data
         } else {
             Vec::new()
@@ -2316,8 +2311,7 @@ fn collect_embedded_skin_data<R: Read + Seek>(
         // SkinBatch: 2 bytes (flags/priority) + 22 bytes (11 u16 fields) = 24 bytes
         let batches = if n_batches > 0 && ofs_batches > 0 {
             reader.seek(SeekFrom::Start(ofs_batches as u64))?;
-            let mut data = vec![0u8; n_batches as usize * 24];
-            reader.read_exact(&mut data)?;
+            let data = crate::common::read_exact_vec(reader, n_batches as usize * 24)?;
             data
         } else {
             Vec::new()
@@ -2533,7 +2527,8 @@ impl M2Model {
                     let end_pos = current_pos + header.size as u64;
 
                     let count = header.size / 4; // Each ID is 4 bytes
-                    let mut ids = Vec::with_capacity(count as usize);
+                    let mut ids =
+                        Vec::with_capacity(crate::common::bounded_capacity(count as usize));
 
                     for _ in 0..count {
                         ids.push(reader.read_u32_le()?);
@@ -2550,7 +2545,8 @@ impl M2Model {
                     let end_pos = current_pos + header.size as u64;
 
                     let count = header.size / 4; // Each ID is 4 bytes
-                    let mut ids = Vec::with_capacity(count as usize);
+                    let mut ids =
+                        Vec::with_capacity(crate::common::bounded_capacity(count as usize));
 
                     for _ in 0..count {
                         ids.push(reader.read_u32_le()?);
@@ -2567,7 +2563,8 @@ impl M2Model {
                     let end_pos = current_pos + header.size as u64;
 
                     let count = header.size / 4; // Each ID is 4 bytes
-                    let mut ids = Vec::with_capacity(count as usize);
+                    let mut ids =
+                        Vec::with_capacity(crate::common::bounded_capacity(count as usize));
 
                     for _ in 0..count {
                         ids.push(reader.read_u32_le()?);
@@ -2608,7 +2605,8 @@ impl M2Model {
                     let end_pos = current_pos + header.size as u64;
 
                     let count = header.size / 4; // Each ID is 4 bytes
-                    let mut ids = Vec::with_capacity(count as usize);
+                    let mut ids =
+                        Vec::with_capacity(crate::common::bounded_capacity(count as usize));
 
                     for _ in 0..count {
                         ids.push(reader.read_u32_le()?);
@@ -2635,7 +2633,8 @@ impl M2Model {
                     }
 
                     let count = header.size / LOD_LEVEL_SIZE;
-                    let mut levels = Vec::with_capacity(count as usize);
+                    let mut levels =
+                        Vec::with_capacity(crate::common::bounded_capacity(count as usize));
 
                     for _ in 0..count {
                         use crate::chunks::file_references::LodLevel;
@@ -2664,8 +2663,7 @@ impl M2Model {
                     let _end_pos = current_pos + header.size as u64;
 
                     // Create a limited reader for this chunk
-                    let mut chunk_data = vec![0u8; header.size as usize];
-                    reader.read_exact(&mut chunk_data)?;
+                    let chunk_data = crate::common::read_exact_vec(reader, header.size as usize)?;
                     let chunk_cursor = std::io::Cursor::new(chunk_data);
                     let mut chunk_reader = ChunkReader::new(chunk_cursor, header.clone())?;
 
@@ -2680,8 +2678,7 @@ impl M2Model {
                     let _end_pos = current_pos + header.size as u64;
 
                     // Create a limited reader for this chunk
-                    let mut chunk_data = vec![0u8; header.size as usize];
-                    reader.read_exact(&mut chunk_data)?;
+                    let chunk_data = crate::common::read_exact_vec(reader, header.size as usize)?;
                     let chunk_cursor = std::io::Cursor::new(chunk_data);
                     let mut chunk_reader = ChunkReader::new(chunk_cursor, header.clone())?;
 
@@ -2696,8 +2693,7 @@ impl M2Model {
                     let _end_pos = current_pos + header.size as u64;
 
                     // Create a limited reader for this chunk
-                    let mut chunk_data = vec![0u8; header.size as usize];
-                    reader.read_exact(&mut chunk_data)?;
+                    let chunk_data = crate::common::read_exact_vec(reader, header.size as usize)?;
                     let chunk_cursor = std::io::Cursor::new(chunk_data);
                     let mut chunk_reader = ChunkReader::new(chunk_cursor, header.clone())?;
 
@@ -2712,8 +2708,7 @@ impl M2Model {
                     let _end_pos = current_pos + header.size as u64;
 
                     // Create a limited reader for this chunk
-                    let mut chunk_data = vec![0u8; header.size as usize];
-                    reader.read_exact(&mut chunk_data)?;
+                    let chunk_data = crate::common::read_exact_vec(reader, header.size as usize)?;
                     let chunk_cursor = std::io::Cursor::new(chunk_data);
                     let mut chunk_reader = ChunkReader::new(chunk_cursor, header.clone())?;
 
@@ -2727,8 +2722,7 @@ impl M2Model {
                     let _end_pos = current_pos + header.size as u64;
 
                     // Create a limited reader for this chunk
-                    let mut chunk_data = vec![0u8; header.size as usize];
-                    reader.read_exact(&mut chunk_data)?;
+                    let chunk_data = crate::common::read_exact_vec(reader, header.size as usize)?;
                     let chunk_cursor = std::io::Cursor::new(chunk_data);
                     let mut chunk_reader = ChunkReader::new(chunk_cursor, header.clone())?;
 
@@ -2742,8 +2736,7 @@ impl M2Model {
                     let _end_pos = current_pos + header.size as u64;
 
                     // Create a limited reader for this chunk
-                    let mut chunk_data = vec![0u8; header.size as usize];
-                    reader.read_exact(&mut chunk_data)?;
+                    let chunk_data = crate::common::read_exact_vec(reader, header.size as usize)?;
                     let chunk_cursor = std::io::Cursor::new(chunk_data);
                     let mut chunk_reader = ChunkReader::new(chunk_cursor, header.clone())?;
 
@@ -2757,8 +2750,7 @@ impl M2Model {
                     let _end_pos = current_pos + header.size as u64;
 
                     // Create a limited reader for this chunk
-                    let mut chunk_data = vec![0u8; header.size as usize];
-                    reader.read_exact(&mut chunk_data)?;
+                    let chunk_data = crate::common::read_exact_vec(reader, header.size as usize)?;
                     let chunk_cursor = std::io::Cursor::new(chunk_data);
                     let mut chunk_reader = ChunkReader::new(chunk_cursor, header.clone())?;
 
@@ -2772,8 +2764,7 @@ impl M2Model {
                     let _end_pos = current_pos + header.size as u64;
 
                     // Create a limited reader for this chunk
-                    let mut chunk_data = vec![0u8; header.size as usize];
-                    reader.read_exact(&mut chunk_data)?;
+                    let chunk_data = crate::common::read_exact_vec(reader, header.size as usize)?;
                     let chunk_cursor = std::io::Cursor::new(chunk_data);
                     let mut chunk_reader = ChunkReader::new(chunk_cursor, header.clone())?;
 
@@ -2787,8 +2778,7 @@ impl M2Model {
                     let _end_pos = current_pos + header.size as u64;
 
                     // Create a limited reader for this chunk
-                    let mut chunk_data = vec![0u8; header.size as usize];
-                    reader.read_exact(&mut chunk_data)?;
+                    let chunk_data = crate::common::read_exact_vec(reader, header.size as usize)?;
                     let chunk_cursor = std::io::Cursor::new(chunk_data);
                     let mut chunk_reader = ChunkReader::new(chunk_cursor, header.clone())?;
 
@@ -2802,8 +2792,7 @@ impl M2Model {
                     let _end_pos = current_pos + header.size as u64;
 
                     // Create a limited reader for this chunk
-                    let mut chunk_data = vec![0u8; header.size as usize];
-                    reader.read_exact(&mut chunk_data)?;
+                    let chunk_data = crate::common::read_exact_vec(reader, header.size as usize)?;
                     let chunk_cursor = std::io::Cursor::new(chunk_data);
                     let mut chunk_reader = ChunkReader::new(chunk_cursor, header.clone())?;
 
@@ -2817,8 +2806,7 @@ impl M2Model {
                     let _end_pos = current_pos + header.size as u64;
 
                     // Create a limited reader for this chunk
-                    let mut chunk_data = vec![0u8; header.size as usize];
-                    reader.read_exact(&mut chunk_data)?;
+                    let chunk_data = crate::common::read_exact_vec(reader, header.size as usize)?;
                     let chunk_cursor = std::io::Cursor::new(chunk_data);
                     let mut chunk_reader = ChunkReader::new(chunk_cursor, header.clone())?;
 
@@ -2832,8 +2820,7 @@ impl M2Model {
                     let _end_pos = current_pos + header.size as u64;
 
                     // Create a limited reader for this chunk
-                    let mut chunk_data = vec![0u8; header.size as usize];
-                    reader.read_exact(&mut chunk_data)?;
+                    let chunk_data = crate::common::read_exact_vec(reader, header.size as usize)?;
                     let chunk_cursor = std::io::Cursor::new(chunk_data);
                     let mut chunk_reader = ChunkReader::new(chunk_cursor, header.clone())?;
 
@@ -2847,8 +2834,7 @@ impl M2Model {
                     let _end_pos = current_pos + header.size as u64;
 
                     // Create a limited reader for this chunk
-                    let mut chunk_data = vec![0u8; header.size as usize];
-                    reader.read_exact(&mut chunk_data)?;
+                    let chunk_data = crate::common::read_exact_vec(reader, header.size as usize)?;
                     let chunk_cursor = std::io::Cursor::new(chunk_data);
                     let mut chunk_reader = ChunkReader::new(chunk_cursor, header.clone())?;
 
@@ -2863,8 +2849,7 @@ impl M2Model {
                     let _end_pos = current_pos + header.size as u64;
 
                     // Create a limited reader for this chunk
-                    let mut chunk_data = vec![0u8; header.size as usize];
-                    reader.read_exact(&mut chunk_data)?;
+                    let chunk_data = crate::common::read_exact_vec(reader, header.size as usize)?;
                     let chunk_cursor = std::io::Cursor::new(chunk_data);
                     let mut chunk_reader = ChunkReader::new(chunk_cursor, header.clone())?;
 
@@ -2878,8 +2863,7 @@ impl M2Model {
                     let _end_pos = current_pos + header.size as u64;
 
                     // Create a limited reader for this chunk
-                    let mut chunk_data = vec![0u8; header.size as usize];
-                    reader.read_exact(&mut chunk_data)?;
+                    let chunk_data = crate::common::read_exact_vec(reader, header.size as usize)?;
                     let chunk_cursor = std::io::Cursor::new(chunk_data);
                     let mut chunk_reader = ChunkReader::new(chunk_cursor, header.clone())?;
 
@@ -2893,8 +2877,7 @@ impl M2Model {
                     let _end_pos = current_pos + header.size as u64;
 
                     // Create a limited reader for this chunk
-                    let mut chunk_data = vec![0u8; header.size as usize];
-                    reader.read_exact(&mut chunk_data)?;
+                    let chunk_data = crate::common::read_exact_vec(reader, header.size as usize)?;
                     let chunk_cursor = std::io::Cursor::new(chunk_data);
                     let mut chunk_reader = ChunkReader::new(chunk_cursor, header.clone())?;
 
@@ -2908,8 +2891,7 @@ impl M2Model {
                     let _end_pos = current_pos + header.size as u64;
 
                     // Create a limited reader for this chunk
-                    let mut chunk_data = vec![0u8; header.size as usize];
-                    reader.read_exact(&mut chunk_data)?;
+                    let chunk_data = crate::common::read_exact_vec(reader, header.size as usize)?;
                     let chunk_cursor = std::io::Cursor::new(chunk_data);
                     let mut chunk_reader = ChunkReader::new(chunk_cursor, header.clone())?;
 
@@ -2923,8 +2905,7 @@ impl M2Model {
                     let _end_pos = current_pos + header.size as u64;
 
                     // Create a limited reader for this chunk
-                    let mut chunk_data = vec![0u8; header.size as usize];
-                    reader.read_exact(&mut chunk_data)?;
+                    let chunk_data = crate::common::read_exact_vec(reader, header.size as usize)?;
                     let chunk_cursor = std::io::Cursor::new(chunk_data);
                     let mut chunk_reader = ChunkReader::new(chunk_cursor, header.clone())?;
 
@@ -2938,8 +2919,7 @@ impl M2Model {
                     let _end_pos = current_pos + header.size as u64;
 
                     // Create a limited reader for this chunk
-                    let mut chunk_data = vec![0u8; header.size as usize];
-                    reader.read_exact(&mut chunk_data)?;
+                    let chunk_data = crate::common::read_exact_vec(reader, header.size as usize)?;
                     let chunk_cursor = std::io::Cursor::new(chunk_data);
                     let mut chunk_reader = ChunkReader::new(chunk_cursor, header.clone())?;
 
@@ -2953,8 +2933,7 @@ impl M2Model {
                     let _end_pos = current_pos + header.size as u64;
 
                     // Create a limited reader for this chunk
-                    let mut chunk_data = vec![0u8; header.size as usize];
-                    reader.read_exact(&mut chunk_data)?;
+                    let chunk_data = crate::common::read_exact_vec(reader, header.size as usize)?;
                     let chunk_cursor = std::io::Cursor::new(chunk_data);
                     let mut chunk_reader = ChunkReader::new(chunk_cursor, header.clone())?;
 
@@ -2968,8 +2947,7 @@ impl M2Model {
                     let _end_pos = current_pos + header.size as u64;
 
                     // Create a limited reader for this chunk
-                    let mut chunk_data = vec![0u8; header.size as usize];
-                    reader.read_exact(&mut chunk_data)?;
+                    let chunk_data = crate::common::read_exact_vec(reader, header.size as usize)?;
                     let chunk_cursor = std::io::Cursor::new(chunk_data);
                     let mut chunk_reader = ChunkReader::new(chunk_cursor, header.clone())?;
 
@@ -5218,16 +5196,18 @@ impl M2Model {
 
         // Optional header arrays we don't serialize: the parser decides from the version and the flags whether
         // they are present, so they must be written (empty) exactly when it expects them
-        header.blend_map_overrides = if header.version >= 260 && (header.flags.bits() & 0x8000000 != 0) {
-            Some(M2Array::new(0, 0))
-        } else {
-            None
-        };
-        header.texture_combiner_combos = if header.flags.contains(M2ModelFlags::USE_TEXTURE_COMBINERS) {
-            Some(M2Array::new(0, 0))
-        } else {
-            None
-        };
+        header.blend_map_overrides =
+            if header.version >= 260 && (header.flags.bits() & 0x8000000 != 0) {
+                Some(M2Array::new(0, 0))
+            } else {
+                None
+            };
+        header.texture_combiner_combos =
+            if header.flags.contains(M2ModelFlags::USE_TEXTURE_COMBINERS) {
+                Some(M2Array::new(0, 0))
+            } else {
+                None
+            };
         header.texture_transforms = None;
 
         // Suppress unused variable warning
@@ -5385,7 +5365,11 @@ impl M2Model {
         if version_num >= 260 && (self.header.flags.bits() & 0x8000000 != 0) {
             size += 2 * 4; // blend_map_overrides
         }
-        if self.header.flags.contains(M2ModelFlags::USE_TEXTURE_COMBINERS) {
+        if self
+            .header
+            .flags
+            .contains(M2ModelFlags::USE_TEXTURE_COMBINERS)
+        {
             size += 2 * 4; // texture_combiner_combos
         }
 
